@@ -486,6 +486,8 @@ func genKind(r *Rng, c *GenCfg, kind string, depth int) *Node {
 	case "string", "int", "float", "bool", "time":
 		if c.Widths && r.P(0.25) {
 			switch kind {
+			case "string":
+				n.W = "named" // a schema over a user-defined string type
 			case "int":
 				n.W = Pick(r, []string{"64", "64", "32"})
 			case "float":
@@ -507,7 +509,7 @@ func genKind(r *Rng, c *GenCfg, kind string, depth int) *Node {
 		genReqOpt(r, c, n)
 		genTests(r, c, n)
 		genPTs(r, c, n)
-		if c.Coercers && r.P(0.12) {
+		if c.Coercers && r.P(0.12) && n.W != "named" {
 			n.Coercer = Pick(r, []string{"const", "const", "fail"})
 			v := genTyped(r, kind)
 			n.CoVal = &v
@@ -596,6 +598,7 @@ func genKind(r *Rng, c *GenCfg, kind string, depth int) *Node {
 	case "pre":
 		n.CT = "any_str"
 		n.Elem = genKind(r, c, "string", depth+1)
+		n.Elem.W = "" // the preprocess function returns a plain string
 		if depth > 0 && r.P(0.2) {
 			// Preprocess in front of a pointer schema (destination *string); not usable at top level
 			n.Elem = &Node{Kind: "ptr", Req: r.P(0.5), Elem: n.Elem}
